@@ -34,6 +34,10 @@ class Gen:
 
     # ---- integers
     def small(self):
+        if self.r.chance(1, 12):
+            # around every width at which the compiler may pick another instruction to push a constant
+            return ("lit", self.r.choice([2 ** 8, 2 ** 16, 2 ** 31 - 1, 2 ** 31, 2 ** 32 - 1, 2 ** 32, 2 ** 32 + 1, 2 ** 33 + 5, 2 ** 35, 2 ** 36 - 1, 2 ** 36, 2 ** 36 + 1, 2 ** 40 + 3,
+                                          2 ** 48, 2 ** 56 + 1, 2 ** 62, 2 ** 63 - 1]))
         return ("lit", self.r.choice([0, 1, 2, 3, 4, 5, 7, 8, 16, 63, 64, 255, 256, 65535]) if self.r.chance(4, 5) else self.r.below(1 << self.r.choice([8, 31, 40, 62])))
 
     def const_small(self):
